@@ -1,0 +1,8 @@
+//! Facade for the bridge RotoRib (roto filter composed with the RIB): the
+//! runner of a `filter` unit (`units/filter/unit.rs`), whose type and
+//! `process_update` are private. Re-exports only; see
+//! `units/filter/verif_hooks_rotorib.rs`. The RIB unit with a `rib-in-pre`
+//! function and the bgp-in handler are reached through `verif::roto`.
+pub use crate::units::verif_filter_unit::{
+    direct_update, gate_process, mk_runner, process_update, FilterUnit,
+};
